@@ -73,7 +73,10 @@ def run_job(job, ctx):
     ncpu = os.cpu_count() or 1
     for j in range(job["n"]):
         r = rng("c20", job["seed"], job["i"], j, fl)
-        s = scenario.gen_scenario(r, sc, nfiles=r.randint(2, 6), min_blocks=1, max_blocks=6)
+        if job["i"] % 20 == 3 and j == 0:
+            s = scenario.gen_scenario(r, sc, nfiles=r.choice([70, 150]), min_blocks=1, max_blocks=2)     # a wide repository
+        else:
+            s = scenario.gen_scenario(r, sc, nfiles=r.randint(2, 6), min_blocks=1, max_blocks=6)
         diff = scenario.add_affects(r, s) if r.random() < 0.5 else ""
         malformed = r.random() < 0.25
         if malformed:
